@@ -185,7 +185,35 @@ func (m *Machine) switchAway(self *Thread, ended bool) {
 			// context bound reached: the running thread keeps the processor until it blocks or ends
 			return
 		}
-		idx = m.Choose(len(c))
+		if m.delayBound > 0 {
+			// delay-bounded scheduling: the default is "the running thread goes on" or, when it
+			// cannot, the next runnable thread in round-robin order; every other pick is a delay,
+			// and a path may contain at most delayBound of them
+			def := 0
+			if selfRunnable {
+				for i, t := range c {
+					if t == self {
+						def = i
+					}
+				}
+			} else {
+				for i, t := range c {
+					if t.id > self.id {
+						def = i
+						break
+					}
+				}
+			}
+			c = append(append([]*Thread(nil), c[def:]...), c[:def]...)
+			if m.delays < m.delayBound {
+				idx = m.Choose(len(c))
+				if idx != 0 {
+					m.delays++
+				}
+			}
+		} else {
+			idx = m.Choose(len(c))
+		}
 	}
 	next := c[idx]
 	if next == self {
